@@ -48,45 +48,45 @@ _STD = ('std / dependency contracts assumed by the Verus proofs (listed per grou
         'real std by the `assumptions` suite: exhaustive per char, bounded per string)')
 
 PROPS = {
-    'C01': dict(level='other', groups=['builder', 'purl'], kani=ESC, bounded=['tokens:C01', 'spell:C01', 'format:C01'] + A,
+    'C01': dict(level='other', groups=['parse', 'fmt', 'builder', 'purl', 'cksum'], kani=ESC, bounded=['tokens:C01', 'spell:C01', 'format:C01'] + A,
         explanation='Deductive part: the escape tables (Kani, complete over all 256 bytes through the real encoder), build() canonicalises (Verus, '
                     'U-build), accessors (Verus). The inverse direction parse(format(x)) = x is NOT proved; it is checked BOUNDED: every '
                     'string of the token language T_N and every spelling of S accepted by the real parser is printed, re-parsed, compared and printed again, '
                     'for String, SmallString and PackageType.'),
-    'C02': dict(level='other', groups=['lib_shape', 'qual'], kani=['type_char', 'key_char'], bounded=['spell:C02', 'tokens:C02'] + A,
+    'C02': dict(level='other', groups=['parse', 'parse_seg', 'lib_shape', 'qual', 'cksum'], kani=['type_char', 'key_char'], bounded=['spell:C02', 'tokens:C02'] + A,
         explanation='Proved for all strings (Verus): which type strings and qualifier keys are legal and how they are lower-cased (U-vtype, U-shape, '
                     'U-qkey). Which substring is routed to which decoder (from_str) and the segment decoders are checked BOUNDED: exhaustive '
                     'tuples x spelling freedoms (S) and every T_N string against an independent reference recogniser.'),
-    'C03': dict(level='other', groups=['qual', 'purl', 'pkgtype'], kani=ESC, bounded=['format:C03', 'tokens:C03', 'spell:C03', 'qualmap'] + A,
+    'C03': dict(level='other', groups=['fmt', 'qual', 'purl', 'pkgtype'], kani=ESC, bounded=['format:C03', 'tokens:C03', 'spell:C03', 'qualmap'] + A,
         explanation='Complete on a finite domain (Kani): every byte of every escape set through the real percent_encode, upper-case hex. Proved (Verus): '
                     'qualifier storage is strictly ascending after every mutator (U-qmap), accessors map empty to None (U-acc). The order of '
                     'components / separators in Display::fmt is checked BOUNDED against an independent renderer on every Unicode scalar value '
                     'in every component position, all ASCII pairs, T_N and S.'),
-    'C04': dict(level='other', groups=['builder', 'lib_shape', 'qual', 'pkgtype'], kani=['type_char', 'key_char'], bounded=['tokens:C04', 'builder', 'protocol', 'preds', 'checksum'] + A,
+    'C04': dict(level='other', groups=['builder', 'parse', 'lib_shape', 'qual', 'pkgtype', 'cksum', 'purl'], kani=['type_char', 'key_char'], bounded=['tokens:C04', 'builder', 'protocol', 'preds', 'checksum'] + A,
         explanation='Proved (Verus) for every PurlShape implementation: build() returns a value with non-empty name, qualifier invariant (valid lower-case keys, '
                     'strictly ascending), non-empty values (checksum: canonical text), after exactly one hook call (U-build against an uninterpreted hook relation); '
                     'built-in shapes validate and lower-case the type (U-shape x3). That from_str ends in build() and the checksum text form are checked BOUNDED.'),
-    'C05': dict(level='other', groups=['lib_shape', 'qual', 'pkgtype', 'builder'], kani=['type_char', 'key_char'], bounded=['faults', 'tokens:C05'] + A,
+    'C05': dict(level='other', groups=['parse', 'parse_seg', 'lib_shape', 'qual', 'pkgtype', 'builder', 'cksum'], kani=['type_char', 'key_char'], bounded=['faults', 'tokens:C05'] + A,
         explanation='Proved (Verus): the error clauses of the stage functions (invalid type => InvalidPackageType, invalid key => InvalidQualifier, empty name => '
                     'MissingRequiredField(Name), maven without namespace => MissingRequiredField(Namespace), checksum failure => InvalidQualifier converted with From). '
                     'Routing and decoding faults are checked BOUNDED: every single fault kind x position x spelling over S, and never-accepted over T_N.'),
-    'C06': dict(level='other', groups=['lib_lower', 'lib_shape', 'pkgtype', 'qual', 'builder', 'purl'], kani=ESC + ['type_char', 'key_char', 'empty_is_invalid', 'package_type_names'],
+    'C06': dict(level='other', groups=['lib_lower', 'lib_shape', 'pkgtype', 'qual', 'builder', 'purl', 'parse_seg', 'cksum', 'fmt', 'parse'], kani=ESC + ['type_char', 'key_char', 'empty_is_invalid', 'package_type_names'],
         bounded=['nopanic', 'tokens:C06', 'checksum', 'qualmap', 'protocol', 'preds', 'builder'],
         explanation='Deductive: every verified unit carries Verus obligations for arithmetic overflow, unwrap, indexing and (documented-panic) preconditions, and '
                     'termination of its loops; Kani adds its automatic checks on the harnessed code. Panic sites outside verified units are covered only BOUNDED '
                     '(catch_unwind around every call of every domain, overflow checks on, random strings to 1 MiB).'),
-    'C07': dict(level='other', groups=[], kani=[], bounded=['segments', 'tokens:C07', 'faults'],
+    'C07': dict(level='other', groups=['parse_seg', 'parse'], kani=[], bounded=['segments', 'tokens:C07', 'faults'],
         explanation='BOUNDED until the segment decoders are verified: all namespace / subpath spellings from 12 pieces (seg, empty, ., .., %2e, %2E, .%2e, %2F, %2f, %5C, ...) '
                     'up to 4 (quick) / 6 (thorough) pieces, and all T_N strings.'),
-    'C08': dict(level='other', groups=['lib_lower', 'pkgtype', 'builder'], kani=['package_type_names'], bounded=['pkgrules', 'lower', 'tokens:C08'] + A,
+    'C08': dict(level='other', groups=['lib_lower', 'pkgtype', 'builder', 'parse'], kani=['package_type_names'], bounded=['pkgrules', 'lower', 'tokens:C08'] + A,
         explanation='Proved for all strings and all seven variants (Verus): nuget name = Unicode lower-casing (U-lower), pypi name = pypi_norm written from the statement '
                     '(U-pypi), maven refused iff the namespace has no significant segment, every other field untouched (U-ptfin frame), build() applies the hook once '
                     '(U-build). Unicode tables are validated exhaustively (A). Parser-side wiring and unknown-type refusal are BOUNDED.'),
-    'C09': dict(level='other', groups=['builder', 'qual', 'pkgtype', 'purl'], kani=ESC, bounded=['builder', 'format:C09'] + A,
+    'C09': dict(level='other', groups=['builder', 'qual', 'pkgtype', 'purl', 'fmt'], kani=ESC, bounded=['builder', 'format:C09'] + A,
         explanation='Proved (Verus): every setter sets its field and leaves every other field unchanged (frames => override and commutation), with_qualifier accepts '
                     'exactly valid keys with the whole-content postcondition of insert, build() succeeds/fails as stated. "The string form re-parses to the same fields" is BOUNDED: '
                     'all call sequences of length <= 2 (quick) / 3 over a value universe, and every scalar value in every field.'),
-    'C10': dict(level='other', groups=['builder', 'purl', 'lib_lower', 'pkgtype'], kani=[], bounded=['tokens:C10', 'spell:C10', 'builder'] + A,
+    'C10': dict(level='other', groups=['builder', 'purl', 'lib_lower', 'pkgtype', 'cksum'], kani=[], bounded=['tokens:C10', 'spell:C10', 'builder'] + A,
         explanation='Proved (Verus): into_builder moves type and parts unchanged (U-acc), build() = hook + generic clean-up (U-build), name rules are the spec functions lower_seq / '
                     'pypi_norm. Idempotence of the whole pipeline on produced values is checked BOUNDED on every accepted T_N / S string and every built value.'),
     'C11': dict(level='other', groups=['qual'], kani=['key_char'], bounded=['qualmap', 'preds'] + A,
@@ -94,7 +94,7 @@ PROPS = {
                     'entry, VacantEntry::insert, OccupiedEntry::{get,get_mut,into_mut,insert,remove,remove_entry}, get_mut, insert_typed, remove_typed each preserve the invariant '
                     'and have whole-content postconditions (named position pos_of, no existential). retain / iterators / try_from_iter / Eq-Hash-Ord are BOUNDED: every reachable '
                     'content over a universe x every operation against a BTreeMap, to a fixpoint.'),
-    'C12': dict(level='other', groups=['lib_lower', 'builder'], kani=[], bounded=['checksum'] + A,
+    'C12': dict(level='other', groups=['cksum', 'lib_lower', 'builder'], kani=[], bounded=['checksum'] + A,
         explanation='Proved (Verus): algorithm lower-casing (copy_as_lowercase == lower_seq), build() replaces the checksum by the text form or refuses. The Checksum <-> text '
                     'functions are BOUNDED: all insertion sequences (length <= 3 / 4) over 8 algorithms x 5 byte strings, insert and insert_raw with case variants, typed round trip, equivalent spellings.'),
     'C13': dict(level='proof', groups=['lib_shape'], kani=['type_char'], bounded=['preds', 'shapes', 'tokens:C13'] + A,
@@ -102,7 +102,7 @@ PROPS = {
                     '(Ok iff valid type; on Ok the type is ASCII-lower-cased; parts untouched), package_type() is the identity view; everything else is one generic body. '
                     'Bounded cross-checks on the compiled code accompany the proof.',
         trusted=['SmartString<M> implements the String operations used (deref to str, make_ascii_lowercase) with String semantics: its impl is verified over SmallString = String']),
-    'C14': dict(level='other', groups=['builder'], kani=[], bounded=['protocol'],
+    'C14': dict(level='other', groups=['builder', 'parse'], kani=[], bounded=['protocol'],
         explanation='Proved (Verus) for every PurlShape: the result of build() is the generic checks applied to exactly ONE application of the hook relation to the initial state; a hook error is '
                     'returned unchanged; emptied name refused, empty qualifiers removed, checksum canonicalised or refused. Parser side (conversion once, on the raw valid substring) is BOUNDED: 2 x 9 counting shapes x T_N.'),
     'C15': dict(level='other', groups=['pkgtype'], kani=['package_type_names'], bounded=['names'],
